@@ -245,7 +245,11 @@ def check_cli(case):
         raise Violation('rise-table-mean-not-measured-mean',
                         repr((sum(sim) / len(sim), sum(meas) / len(meas))))
     vector = yaml.safe_load(vector_text)
-    if vector != sim:
+    if len(vector) != len(sim) or any(
+            a != b and abs(a - b) > 1e-14 * max(abs(a), abs(b))
+            for a, b in zip(vector, sim)):
+        # (the vector may carry fewer digits than the table so that every
+        # value fits the field read by the PEST instruction file)
         raise Violation('rise-observations-differ-from-table',
                         repr((vector[:3], sim[:3])))
     # simulated differences = integral of the specific yield
